@@ -874,15 +874,15 @@ func runScenario(c *kit.Case, w *kit.World, node *centrifuge.Node, s *scn, reg f
 	}
 	continueAfterStop := s.profile == "wild" && r.Chance(1, 5)
 
-	sent := map[uint32]int{}    // reply-expecting commands handed to the client, per id
+	sent := map[uint32]int{} // reply-expecting commands handed to the client, per id
 	subRefreshOnMap := map[uint32]bool{}
 	sendIDs := map[uint32]int{} // one-way sends that carry an id anyway: 0 or 1 reply each (an OnCommandRead error is reported with the id)
 	var labels []string
 	allProceed := true
 	stopped := false
-	mustClose := ""       // reason the connection has to end up closed
-	pongsAccepted := 0    // pongs the model knows to be legitimate
-	pingsAtLastPong := 0  // number of server pings seen when the last legitimate pong was sent
+	mustClose := ""      // reason the connection has to end up closed
+	pongsAccepted := 0   // pongs the model knows to be legitimate
+	pingsAtLastPong := 0 // number of server pings seen when the last legitimate pong was sent
 	firstFrame := true
 	strictPreauth := false
 
